@@ -330,6 +330,45 @@ func runC06(c *rt.Ctx) {
 			}
 		}
 	}
+	// a backend that answers very late (ten seconds of virtual time pass while a reply is held back)
+	// and then recovers: the caller still gets its own result, and the pool serves a later caller
+	for _, ps := range []int{1, 2} {
+		for i, a := range c0 {
+			if i%2 == 1 && !c.Thorough() {
+				continue
+			}
+			item++
+			if c.Mine(item) && !c.Expired() {
+				run(PoolScenario{Harness: "C06", BatchSize: 1, PoolSize: ps, Prep: p0, Callers: []wire.Op{a}, SlowAdvance: true, Late: true})
+			}
+		}
+		for i := range c0 {
+			if i%4 != 0 {
+				continue
+			}
+			item++
+			if c.Mine(item) && !c.Expired() {
+				run(PoolScenario{Harness: "C06", BatchSize: 2, PoolSize: ps, Prep: append(append([]wire.Op{}, p0...), p1...), Callers: []wire.Op{c0[i], c1[(i*7+3)%len(c1)]}, SlowAdvance: true, Late: true})
+			}
+		}
+	}
+	// values larger than the pool's buffers may hold more than once (16 KiB against an 8 KiB threshold
+	// one might pick, 70 KB against the 64 KiB reader and batch buffers): two callers read big values
+	// over one pooled connection; the bytes are looked at only after both have been served
+	for _, ps := range []int{1, 2} {
+		for _, bs := range []int{1, 2} {
+			for _, sz := range []int{16384, 70000} {
+				item++
+				if !c.Mine(item) || c.Expired() {
+					continue
+				}
+				prep := []wire.Op{{Kind: "set", Key: "c0-big", VGen: true, VLen: sz, VSeed: 41, Flags: 1}, {Kind: "set", Key: "c1-big", VGen: true, VLen: sz + 1, VSeed: 42, Flags: 2}}
+				for _, buf := range []int{0, 65536} {
+					run(PoolScenario{Harness: "C06", BatchSize: bs, PoolSize: ps, BufSize: buf, Prep: prep, Callers: []wire.Op{{Kind: "get", Key: "c0-big"}, {Kind: "get", Key: "c1-big"}, {Kind: "mget", Keys: []string{"c1-big", "c0-big"}}}})
+				}
+			}
+		}
+	}
 	// many callers at once (8, 16, 64), each on keys of its own, batches of 4 and 8 on 1, 2 and 4
 	// pooled connections: the default event order and every single deviation from it (with 16 and 64
 	// callers: at every decision the three alternatives nearest to the default)
